@@ -576,6 +576,41 @@ func mfRunConfigCase(c mfCase) mfLine {
 	os.WriteFile(prop, []byte("file=/ammo.uri\nlimit=7\n"), 0o600)
 	m := map[string]interface{}{"decoder": "uri", "file": "${env:VERIF_C13_FILE}", "limit": "${env:VERIF_C13_INT}"}
 	switch c.Cls {
+	case "propfile":
+		// arg = <<lines, req, layout>> (Malformed!PropTokens, PropLayouts)
+		lineText := map[string]string{"kv": "key=v1", "kv2": "key=v2", "bare": "key", "blank": "", "comment": "# key=commented",
+			"eqonly": "=", "emptyval": "key=", "other": "other=x", "longer": "key2=wrong", "eqval": "key=a=b", "spaced": " key = v3",
+			"long": "zlong=" + strings.Repeat("x", 70000)}
+		toks, _ := c.Arg[0].([]interface{})
+		req, _ := c.Arg[1].(string)
+		layout, _ := c.Arg[2].(string)
+		lines := []string{}
+		for _, t := range toks {
+			txt, ok := lineText[fmt.Sprint(t)]
+			if !ok {
+				machinery("unknown property-file line token %v", t)
+			}
+			lines = append(lines, txt)
+		}
+		eol := "\n"
+		if layout == "crlf" {
+			eol = "\r\n"
+		}
+		content := strings.Join(lines, eol)
+		if len(lines) > 0 && layout != "nofinalnl" {
+			content += eol
+		}
+		switch layout {
+		case "lf", "crlf", "nofinalnl":
+		case "bom":
+			content = "\xef\xbb\xbf" + content
+		default:
+			machinery("unknown property-file layout %q", layout)
+		}
+		os.WriteFile(prop, []byte(content), 0o600)
+		m["file"] = "${property:" + prop + "#" + req + "}"
+	case "prop_dir":
+		m["file"] = "${property:" + dir + "#file}"
 	case "d_none":
 		m["file"] = "${property:" + prop + "#file}"
 	case "prop_nokey":
@@ -613,6 +648,9 @@ func mfRunConfigCase(c mfCase) mfLine {
 			}
 			if c.Cls == "d_none" && (conf.File != "/ammo.uri" || conf.Limit != 7) {
 				machinery("well-formed config decoded to %+v", conf)
+			}
+			if c.Cls == "propfile" {
+				evs = append(evs, mfEvent{"Value", trunc(conf.File, 100)})
 			}
 			evs = append(evs, mfEvent{"Stage", "construct"}, mfEvent{"End", "accepted"})
 		}
